@@ -350,8 +350,18 @@ func c09Scenario(r *Run, si int, hookCount *int64) error {
 		default:
 			writers = []string{X.Orbit.Identity().ID}
 		}
+		// databases j and j+2 share their NAME (their addresses still differ: another type):
+		// the address, not the name, is what keeps databases apart
+		nameIdx := j
+		if j >= 2 {
+			nameIdx = j - 2
+			for typ == w.types[j-2] {
+				typ = types[r.Rng.Intn(3)]
+			}
+			r.Count("same-name-pair")
+		}
 		ac := &accesscontroller.CreateAccessControllerOptions{Access: map[string][]string{"write": writers}}
-		st, err := X.Orbit.Create(ctx, fmt.Sprintf("db-%s-%d", s.Label, j), typ, &orbitdb.CreateDBOptions{AccessController: ac})
+		st, err := X.Orbit.Create(ctx, fmt.Sprintf("db-%s-%d", s.Label, nameIdx), typ, &orbitdb.CreateDBOptions{AccessController: ac})
 		if err != nil {
 			return fmt.Errorf("create %d: %w", j, err)
 		}
